@@ -330,7 +330,7 @@ var Engine = &core.Engine{
 	ID:    "C05",
 	Level: "fault_enumeration",
 	Rule: "operations = 16 kinds (Create of struct / slice / pointer slice, CreateInBatches, Save new / existing, FullSaveAssociations, Update, Updates struct / with associations / by condition, UpdateColumn, Delete, Select(assoc).Delete, Select(clause.Associations).Delete, Delete by condition) over seeded record graphs (belongs-to new/existing, has-one, has-many with nested has-many, many-to-many new/existing, polymorphic) with hooks on parent and child that write an audit row through tx; " +
-		"for each operation EVERY faultable driver call index (BEGIN, each prepare/exec/query, COMMIT) and EVERY hook invocation index is failed once, and (every 4th operation in quick, all in thorough) the process is made to die at EVERY driver call index (crash points); distinct = (operation kind, K, k, call kind, SQL verb) resp. (kind, J, j, hook, type); every faulted run is non-trivial (the fault-free run proved the call/hook is reached and the operation changes the database)",
+		"for each operation EVERY faultable driver call index (BEGIN, each prepare/exec/query, COMMIT) and EVERY hook invocation index is failed once (the failing step wraps a random error value: none, context.Canceled, context.DeadlineExceeded, sql.ErrTxDone, ErrRecordNotFound, ErrInvalidTransaction, sql.ErrNoRows), and (every 4th operation in quick, all in thorough) the process is made to die at EVERY driver call index (crash points); distinct = (operation kind, K, k, call kind, SQL verb) resp. (kind, J, j, hook, type); every faulted run is non-trivial (the fault-free run proved the call/hook is reached and the operation changes the database)",
 	Assumptions: []string{
 		"default settings only (implicit transaction on, no PrepareStmt)",
 		"faults are injected at BEGIN, statements and COMMIT (a failed COMMIT rolls the real transaction back, as a server would); not on ROLLBACK or row iteration",
